@@ -449,7 +449,7 @@ func execute(c Case) vkit.Result {
 		worker = w
 	}
 	in, _ := json.Marshal(Req{Kind: c.Kind, Data: c.Data, ExpectClosed: c.Expect == "closed"})
-	out, err := worker.Do(in, 90*time.Second)
+	out, err := worker.Do(in, 300*time.Second)
 	labels := []string{"entry-" + c.Kind}
 	if err != nil {
 		d, ok := err.(*vkit.Died)
